@@ -91,7 +91,7 @@ package controller
 //@   atcall[C04.formula C07] ensureNoThirdPartyIsMessingWithUs: target == rescaleOf(control_loop.clampInt(lastCycleOut, 0, 255), minPwm, maxPwm)
 //@   ensures[C04.request C07] err == nil && f.minPwmOffset == old(f.minPwmOffset) ==> target == rescaleOf(control_loop.clampInt(lastCycleOut, 0, 255), old(floorOf(f)), old(fans.fanMax(f.fan)))
 //@   ensures[C01.range C02 C05 C10 C03 C09] err == nil ==> old(fans.fanMin(f.fan)) <= target && target <= old(fans.fanMax(f.fan))
-//@   ensures[C01.inv C02 C05 C10 C03 C09]   ctrlInv(f)
+//@   ensures[C01.inv C02 C05 C10 C03 C09 C04 C07]   ctrlInv(f)
 //@   ensures[C01.maxconst C02 C05 C10 C03 C09] fans.fanMax(f.fan) == old(fans.fanMax(f.fan)) && f.pwmMap == old(f.pwmMap) && f.lastSetPwm == old(f.lastSetPwm)
 //@   ensures[C02.floor]  err == nil && fans.fanNeverStop(f.fan) ==> target >= old(floorOf(f))
 //@   ensures[C02.perm]   floorOf(f) >= old(floorOf(f))
